@@ -424,10 +424,10 @@ def frequency_to_midi_pitch(
     """
     midi_pitch = np.round(12 * np.log2(32 * freq / a4) + 9)
 
-    if isinstance(midi_pitch, (int, float)):
-        return int(midi_pitch)
-    elif isinstance(midi_pitch, np.ndarray):
+    if isinstance(midi_pitch, np.ndarray):
         return midi_pitch.astype(int)
+    # Python numbers and numpy scalars of any width
+    return int(midi_pitch)
 
 
 @deprecated_alias(t="time_in_seconds")
